@@ -95,7 +95,7 @@ impl FileProj {
     fn project(&self) -> Value {
         match fs::read(&self.path) {
             Ok(bytes) => project_file(&bytes, self.blk).to_json(),
-            Err(_) => json!("missing"),
+            Err(_) => json!({"lo": -1, "n": -1, "x": []}),
         }
     }
 }
@@ -447,7 +447,7 @@ impl Sim {
             if !self.cfg.sending && !self.cfg.devfull {
                 ev["file"] = match fs::read(&self.path) {
                     Ok(bytes) => project_file(&bytes, self.cfg.blk).to_json(),
-                    Err(_) => json!("missing"),
+                    Err(_) => json!({"lo": -1, "n": -1, "x": []}),
                 };
             }
             self.push_event(ev);
